@@ -48,6 +48,8 @@ func checkC06(c *Ctx) Meta {
 	checkC06Found(c)
 	c.Rule("C06-BRANCH", "the external (plot-key) counter and the internal counter never cross: every consumer of a counter (struct field, putLastIndex/updateChildNum argument, exported hdPath) receives only values produced for the same branch (fetchChildNum result, getChildNum flag, field), producers and consumers being labelled from the DB key they read or write", 10)
 	checkBranchPolarity(c, "C06-BRANCH")
+	checkKeyConstantsDistinct(c, "C06-BRANCH")
+	checkImportLoopPolarity(c, "C06-BRANCH")
 
 	li := keystoreLocksets(c)
 	if f := c.MustFn("C06-RMW", "poc/wallet/keystore", "(*AddrManager).nextAddresses"); f != nil {
@@ -417,6 +419,28 @@ func checkC05(c *Ctx) Meta {
 	checkEraser(c)
 	c.aliasFrom, c.aliasTo = "", ""
 	checkUnlockAllOrNothing(c, "C05-LOCKSTATE")
+	checkParsedKeyWidth(c, "C05-BIND")
+	if f := c.MustFn("C05-LOCKSTATE", "poc/wallet/keystore", "(*KeystoreManagerForPoC).Lock"); f != nil {
+		li2 := keystoreLocksets(c)
+		key := "Lock:keys-wiped-before-the-manager-lock-is-released"
+		n, bad := 0, false
+		for _, g := range withClosures(f) {
+			for _, cl := range callsIn(g, "(*"+tAddrMgr+").clearPrivKeys") {
+				n++
+				if !holds(li2, cl, tKMC+".mu") {
+					bad = true
+				}
+			}
+		}
+		switch {
+		case n == 0:
+			c.Bad("C05-LOCKSTATE", key, c.Pos(f.Pos()), "reason=anchor-missing: clearPrivKeys call in Lock")
+		case bad:
+			c.Bad("C05-LOCKSTATE", key, c.Pos(f.Pos()), "Lock reports the wallet locked (and releases the manager lock) before the keystores are wiped: IsLocked() is true while SignHash still signs")
+		default:
+			c.OK("C05-LOCKSTATE", key, c.Pos(f.Pos()), "every clearPrivKeys call is made with kmc.mu held")
+		}
+	}
 	if f := c.Fn("poc/wallet/keystore", "(*AddrManager).nextAddresses"); f != nil {
 		checkPersistOwnPath(c, f, "C05-BIND")
 	}
